@@ -8,7 +8,18 @@ for l in open('/verif/properties.jsonl'):
     if p['id'] == pid:
         break
 wt = f"/tmp/mut-{pid.lower()}{n}"
-print(f"""You are testing how robust a code base is against subtle regressions. You get ONE semantic property of the Rust project `essential-base` (crates for the Essential intent protocol: a YAML-specified assembly with generated codecs, a stack-based bytecode VM, hashing/signing helpers, and a solution / predicate-graph checker) and your own scratch git worktree of it. Your job: craft up to THREE different, realistic source changes ("mutants"), each of which **breaks the property** while the project **still compiles and its existing test suite still passes**, and for each a small demonstration (a Rust test or tiny program) that fails with the change and passes without it.
+import glob
+prev = []
+for d in sorted(glob.glob(f"/verif/seeded/ag*-{pid.lower()}-m*")):
+    try:
+        prev.append("- " + json.load(open(d + "/meta.json"))["what"][:260].replace("\n", " "))
+    except Exception:
+        pass
+nmut = sys.argv[3] if len(sys.argv) > 3 else "THREE"
+PREV = ""
+if prev and n != "a":
+    PREV = "\n## Already tried by earlier rounds (do NOT repeat these ideas or close variations; find different mechanisms and different code locations)\n" + "\n".join(prev) + "\n"
+print(f"""You are testing how robust a code base is against subtle regressions. You get ONE semantic property of the Rust project `essential-base` (crates for the Essential intent protocol: a YAML-specified assembly with generated codecs, a stack-based bytecode VM, hashing/signing helpers, and a solution / predicate-graph checker) and your own scratch git worktree of it. Your job: craft up to {nmut} different, realistic source changes ("mutants"), each of which **breaks the property** while the project **still compiles and its existing test suite still passes**, and for each a small demonstration (a Rust test or tiny program) that fails with the change and passes without it.
 
 ## Your workspace
 Create your private worktree first (work ONLY inside it; never edit /repo itself, never look at or touch /verif):
@@ -25,6 +36,7 @@ Why the existing tests cannot settle it: {p['why_tests_cant']}
 Code it is anchored in: {', '.join(p['anchors']['files'])}
 Mechanisms: {'; '.join(m['name'] + ' (' + m.get('where','') + ')' for m in p['anchors'].get('mechanism', []))}
 
+{PREV}
 ## What makes a good mutant
 - It is the kind of change a developer could plausibly make (a refactor, an "optimisation", an off-by-one, a changed iteration order, a hoisted buffer, a missing/extra clone, a reordered check, swapped arguments, a cached value that goes stale, a boundary `<` vs `<=`, two cooperating sites that each look fine alone) — not sabotage that any use would expose at once, not a change of documented constants, not deleting a feature.
 - It needs **something specific to manifest**: a particular interleaving / completion order of parallel tasks, a particular multi-step sequence of operations, an unusual input shape (boundary value, non-topological numbering, empty/duplicate element, value near a limit), or two sites acting together. Ordinary use and the existing tests must not notice it.
